@@ -210,6 +210,11 @@ func electionEvents(fi *FuncInfo) func(n ast.Node) []Event {
 
 // paramRole names an object position-independently: p0, p1 … for parameters, recv for the receiver, else its name.
 func paramRole(info *types.Info, fd *ast.FuncDecl, o types.Object) string {
+	// a parameter of a helper spliced into fd stands for the argument it is bound to
+	o = frameArgRoot(info, fd, o)
+	if o == nil {
+		return "?"
+	}
 	for i, p := range paramObjs(info, fd) {
 		if p == o {
 			return fmt.Sprintf("p%d", i)
@@ -283,8 +288,8 @@ func ruleElectionWriters(c *Ctx) {
 				name = displayName(fn)
 			}
 			switch {
-			case fn != nil && fn.Name() == "runElection":
-				c.ok(rule, name, "store "+fld, c.P.pos(st.Pos()), "the election procedure")
+			case fn != nil && onBehalfOf(c.P.callGraph(), fn, func(g *types.Func) bool { return g.Name() == "runElection" && !isNewFunc(g) }):
+				c.ok(rule, name, "store "+fld, c.P.pos(st.Pos()), "the election procedure (or a helper new to the rules that only it calls)")
 			case fn != nil && fn.Name() == "InjectElectionID" && recvTypeName(fn) == "FakeServer":
 				c.ok(rule, name, "store "+fld, c.P.pos(st.Pos()), "test injector (exempt by name: FakeServer.InjectElectionID is outside the RPC surface)")
 			default:
